@@ -201,69 +201,79 @@ fn exhaustive(ctx: &mut Ctx) {
 
 fn random(ctx: &mut Ctx) {
     let instances = ctx.size(60, 900);
-    let per = ctx.size(6, 12);
+    // In the coverage-guided leg one history per iterator and instance: the fuzzer supplies the variety.
+    let per = if ctx.fuzz.is_some() { 1 } else { ctx.size(6, 12) };
     let mut histories = 0u64;
     for k in 0..instances {
         if !ctx.begin_case() { continue; }
         let mut rng: Rng = ctx.rng(0xC10_000 + k as u64);
-        // Set bits separated by 0..5 empty words, at word / block / bucket boundaries.
-        let n = match k % 5 { 0 => 64 + rng.below(200), 1 => 512 + rng.below(3) - 1, 2 => 700 + rng.below(800), 3 => 1 + rng.below(70), _ => 4096 + rng.below(130) };
-        let mut bits = vec![false; n];
-        match k % 4 {
-            0 => { let mut p = rng.below(64); while p < n { bits[p] = true; p += 1 + rng.below(6) * 64 + rng.below(3); } },
-            1 => { for b in bits.iter_mut() { *b = rng.chance(1, 2); } },
-            2 => { for w in 0..=(n / 64) { for d in [0usize, 63] { let p = w * 64 + d; if p < n && rng.chance(2, 3) { bits[p] = true; } } } },
-            _ => { let d = *rng.pick(&gen::DENSITIES); let sh = *rng.pick(&gen::SHAPES); bits = gen::bits(&mut rng, n, d, sh); },
-        }
-        let pos = gen::positions(&bits);
-        let mut dup: Vec<usize> = Vec::new();
-        for &p in pos.iter() { let c = 1 + if rng.chance(1, 3) { rng.below(4) } else { 0 }; for _ in 0..c { dup.push(p); } }
-        let s = match build(&bits, Some(&dup)) { Ok(s) => s, Err(e) => { ctx.violation("iter.construct", e); continue; } };
-        let ones = pos.len();
-        let mut starts: Vec<usize> = vec![0, 1, ones / 2, ones.saturating_sub(1), ones, ones + 1, n.saturating_sub(1), n, n + 1];
-        for _ in 0..4 { starts.push(rng.below(n + 2)); }
-        for &p in pos.iter().take(3) { starts.push(p); starts.push(p + 1); }
-        starts.sort_unstable(); starts.dedup();
-        let suite = suite(&s, &starts);
-        let what = || format!("len={} ones={} first positions {:?}", n, ones, &pos[..std::cmp::min(pos.len(), 12)]);
-        let mut kinds: Vec<u64> = Vec::new();
-        for (label, make, reference) in suite.bits.iter() {
-            for _ in 0..per {
-                let de = make().double_ended();
-                let long = rng.chance(1, 5);
-                let steps = 1 + rng.below(if long { 300 } else { 30 });
-                let calls = ih::random_history(&mut rng, de, steps, reference.len());
-                histories += 1;
-                kinds.push(hash_str(&format!("{}{:?}", label, &calls[..std::cmp::min(calls.len(), 12)])));
-                ih::run_history(ctx, label, make(), reference, &calls, &what);
-            }
-        }
-        for (label, make, reference) in suite.pairs.iter() {
-            let reps = if label.contains('(') { 1 } else { per };
-            let sig = sig_of(label);
-            let what2 = || format!("{} on {}", label, what());
-            for _ in 0..reps {
-                let de = make().double_ended();
-                let long = rng.chance(1, 5);
-                let steps = 1 + rng.below(if long { 300 } else { 30 });
-                let calls = ih::random_history(&mut rng, de, steps, reference.len());
-                histories += 1;
-                kinds.push(hash_str(&format!("{}{:?}", sig, &calls[..std::cmp::min(calls.len(), 12)])));
-                ih::run_history(ctx, &sig, make(), reference, &calls, &what2);
-            }
-        }
-        for (label, make, reference) in suite.items.iter() {
-            for _ in 0..per {
-                let de = make().double_ended();
-                let steps = 1 + rng.below(40);
-                let calls = ih::random_history(&mut rng, de, steps, reference.len());
-                histories += 1;
-                kinds.push(hash_str(&format!("{}{:?}", label, &calls[..std::cmp::min(calls.len(), 12)])));
-                ih::run_history(ctx, label, make(), reference, &calls, &what);
-            }
-        }
-        for h in kinds { ctx.case(h, true); }
-        ctx.sample(|| format!("rand: len={} ones={} x all iterator types x {} starting points x random histories of up to 300 calls (next/next_back/nth/nth_back/len/clone)", n, ones, starts.len()));
+        histories += random_case(ctx, &mut rng, k, per);
     }
     ctx.count("rand.histories", histories);
+}
+
+// One generated instance (shape family `k`), every iterator type and starting point, `per` random histories each.
+// Also the entry point of the coverage-guided leg (fuzz.rs). Returns the number of histories run.
+pub fn random_case(ctx: &mut Ctx, rng: &mut Rng, k: usize, per: usize) -> u64 {
+    let mut histories = 0u64;
+    // Set bits separated by 0..5 empty words, at word / block / bucket boundaries.
+    let n = match k % 5 { 0 => 64 + rng.below(200), 1 => 512 + rng.below(3) - 1, 2 => 700 + rng.below(800), 3 => 1 + rng.below(70), _ => 4096 + rng.below(130) };
+    let mut bits = vec![false; n];
+    match k % 4 {
+        0 => { let mut p = rng.below(64); while p < n { bits[p] = true; p += 1 + rng.below(6) * 64 + rng.below(3); } },
+        1 => { for b in bits.iter_mut() { *b = rng.chance(1, 2); } },
+        2 => { for w in 0..=(n / 64) { for d in [0usize, 63] { let p = w * 64 + d; if p < n && rng.chance(2, 3) { bits[p] = true; } } } },
+        _ => { let d = *rng.pick(&gen::DENSITIES); let sh = *rng.pick(&gen::SHAPES); bits = gen::bits(rng, n, d, sh); },
+    }
+    let pos = gen::positions(&bits);
+    let mut dup: Vec<usize> = Vec::new();
+    for &p in pos.iter() { let c = 1 + if rng.chance(1, 3) { rng.below(4) } else { 0 }; for _ in 0..c { dup.push(p); } }
+    let s = match build(&bits, Some(&dup)) { Ok(s) => s, Err(e) => { ctx.violation("iter.construct", e); return 0; } };
+    let ones = pos.len();
+    let mut starts: Vec<usize> = vec![0, 1, ones / 2, ones.saturating_sub(1), ones, ones + 1, n.saturating_sub(1), n, n + 1];
+    for _ in 0..4 { starts.push(rng.below(n + 2)); }
+    for &p in pos.iter().take(3) { starts.push(p); starts.push(p + 1); }
+    starts.sort_unstable(); starts.dedup();
+    let suite = suite(&s, &starts);
+    let what = || format!("len={} ones={} first positions {:?}", n, ones, &pos[..std::cmp::min(pos.len(), 12)]);
+    let mut kinds: Vec<u64> = Vec::new();
+    for (label, make, reference) in suite.bits.iter() {
+        for _ in 0..per {
+            let de = make().double_ended();
+            let long = rng.chance(1, 5);
+            let steps = 1 + rng.below(if long { 300 } else { 30 });
+            let calls = ih::random_history(rng, de, steps, reference.len());
+            histories += 1;
+            kinds.push(hash_str(&format!("{}{:?}", label, &calls[..std::cmp::min(calls.len(), 12)])));
+            ih::run_history(ctx, label, make(), reference, &calls, &what);
+        }
+    }
+    for (label, make, reference) in suite.pairs.iter() {
+        let reps = if label.contains('(') { 1 } else { per };
+        let sig = sig_of(label);
+        let what2 = || format!("{} on {}", label, what());
+        for _ in 0..reps {
+            let de = make().double_ended();
+            let long = rng.chance(1, 5);
+            let steps = 1 + rng.below(if long { 300 } else { 30 });
+            let calls = ih::random_history(rng, de, steps, reference.len());
+            histories += 1;
+            kinds.push(hash_str(&format!("{}{:?}", sig, &calls[..std::cmp::min(calls.len(), 12)])));
+            ih::run_history(ctx, &sig, make(), reference, &calls, &what2);
+        }
+    }
+    for (label, make, reference) in suite.items.iter() {
+        for _ in 0..per {
+            let de = make().double_ended();
+            let steps = 1 + rng.below(40);
+            let calls = ih::random_history(rng, de, steps, reference.len());
+            histories += 1;
+            kinds.push(hash_str(&format!("{}{:?}", label, &calls[..std::cmp::min(calls.len(), 12)])));
+            ih::run_history(ctx, label, make(), reference, &calls, &what);
+        }
+    }
+    for h in kinds { ctx.case(h, true); }
+    ctx.sample(|| format!("rand: len={} ones={} x all iterator types x {} starting points x random histories of up to 300 calls (next/next_back/nth/nth_back/len/clone)", n, ones, starts.len()));
+
+    histories
 }
